@@ -10,6 +10,7 @@ pub mod c05;
 pub mod c06;
 pub mod c07;
 pub mod c08;
+pub mod c20;
 pub mod fl;
 pub mod c09;
 pub mod c10;
@@ -44,6 +45,7 @@ pub fn dispatch(id: &str, run: &Arc<Run>) -> bool {
         "C17" => c17::run(run),
         "C18" => c18::run(run),
         "C19" => c19::run(run),
+        "C20" => c20::run(run),
         _ => return false,
     }
     true
